@@ -39,7 +39,7 @@ def fromElement (n : Node) (viewBox : Option (Rect Float)) : Except PyErr GradRe
   let scale : Rect Float ← if unitsAttr == "userSpaceOnUse" then
       (match viewBox with
        | some vb => pure vb
-       | none => throw PyErr.typeError)       -- AttributeError on None.w in Python
+       | none => throw PyErr.attributeError)  -- `None.w` / `None.normalized_diagonal()` in Python
     else if unitsAttr == "objectBoundingBox" then pure ⟨0, 0, 1, 1⟩
     else throw PyErr.valueError
   let pop (k dflt : String) (sc : Float) : Except PyErr Float := numOrPct ((a.get k).getD dflt) sc
